@@ -834,13 +834,15 @@ LONG_QUICK = [101, 128, 150, 200, 100, 150, 200, 150, 128, 101, 150, 200]
 
 def long_oracle_case(rng, idx, iters=LONG_QUICK, twice=False):
     """ORACLE-ONLY stream: iteration counts at and above the default of 100 (where the exact Coq replay, quadratic in
-    the iteration count, is out of reach) on small netlists with at least two soft modules and a net; 3 in 4
+    the iteration count, is out of reach) on small crowded netlists (3-4 modules, two of them soft, a net, a quarter of the die occupied); 3 in 4
     force_algorithm (1000 iterations: the layout function only); twice: 1 in 5 the same call again on the same die"""
     it = iters[idx % len(iters)]
     op = "layout" if it >= 1000 else LONG_OPS[idx % len(LONG_OPS)]
     while True:
         c = gen_case(rng, op)
-        if 2 <= len(c["mods"]) <= 4 and sum(m["kind"] == "soft" for m in c["mods"]) >= 2 and c["nets"]:
+        # crowded dies (the ranking of the spring constants then depends on how far the layout got)
+        fill = sum(m.get("area", 0) + sum(r[2] * r[3] for r in m.get("rects", [])) for m in c["mods"]) / (c["W"] * c["H"])
+        if 3 <= len(c["mods"]) <= 4 and sum(m["kind"] == "soft" for m in c["mods"]) >= 2 and c["nets"] and fill >= F(1, 4):
             break
     c["max_iter"] = it
     c = normalise(c)
@@ -861,7 +863,7 @@ def run(ctx, out, replay=None):
                 "(20%) prefixes/suffixes of each other (H1, H1_0, H1_io, H10, _ ..); 0-4 nets of arity 2-5, weights "
                 "{0.5,1,2,2.5,3,10}, 15% a net listed twice; 30% whole numbers written as YAML integers (die string too); "
                 "kappa in 0.4..1.5, 0.01, 10; max_iter 0..20 incl. 9/10, 15/16/17 (a few 31-33; ORACLE-ONLY, without Coq replay: "
-                "max_iter 100, 101, 128, 150, 200 on 2-4 modules with two soft ones and a net, 5 in 6 force_algorithm, determinism twin "
+                "max_iter 100, 101, 128, 150, 200 on 3-4 modules with two soft ones, a net and a quarter of the die occupied, 5 in 6 force_algorithm, determinism twin "
                 "for 1 in 4 of those); calls positional or by "
                 "keyword (default kappa not passed). ONE-CALL cases on a netlist fresh from YAML (1 in 12 "
                 "force_algorithm), plus TIES (two discs tangent from outside / inside, chord through a centre 3-4-5, "
